@@ -102,21 +102,19 @@ func fuzzBlock(data []byte) error {
 		if b2.Size[0] <= 0 || b2.Size[1] <= 0 || b2.Size[2] <= 0 {
 			break
 		}
-		if err := stats.PanicGuard("C20/fuzz/Block."+v.name+"/panic-on-accepted-block", func() error { v.f(); return nil }); err != nil {
-			if stats.IsKnown(stats.SigOf(err)) {
-				continue // listed: look at the other views
-			}
-			return err
+		// one signature for all views: the defect is that UnmarshalBinary accepted the block
+		if err := stats.PanicGuard("C20/fuzz/Block.views/panic-on-accepted-block", func() error { v.f(); return nil }); err != nil {
+			return stats.Violf(stats.SigOf(err), "%s on a block UnmarshalBinary accepted: %v", v.name, err)
 		}
 	}
 	if len(b2.Labels) > 0 && b2.Size[0] > 0 && b2.Size[1] > 0 && b2.Size[2] > 0 {
 		sel := labels.Set{b2.Labels[0]: struct{}{}}
 		pblk := &labels.PositionedBlock{Block: b2, BCoord: dvid.ChunkPoint3d{1, 2, 3}.ToIZYXString()}
-		if r := runBlockOutput("rle", sel, b2.Labels[0], pblk); r != nil && !stats.IsKnown("C20/fuzz/WriteRLEs/panic-on-accepted-block") {
-			return stats.Violf("C20/fuzz/WriteRLEs/panic-on-accepted-block", "panic: %v", r)
+		if r := runBlockOutput("rle", sel, b2.Labels[0], pblk); r != nil {
+			return stats.Violf("C20/fuzz/Block.views/panic-on-accepted-block", "WriteRLEs on a block UnmarshalBinary accepted: panic: %v", r)
 		}
-		if r := runBlockOutput("bin", sel, b2.Labels[0], pblk); r != nil && !stats.IsKnown("C20/fuzz/WriteBinaryBlocks/panic-on-accepted-block") {
-			return stats.Violf("C20/fuzz/WriteBinaryBlocks/panic-on-accepted-block", "panic: %v", r)
+		if r := runBlockOutput("bin", sel, b2.Labels[0], pblk); r != nil {
+			return stats.Violf("C20/fuzz/Block.views/panic-on-accepted-block", "WriteBinaryBlocks on a block UnmarshalBinary accepted: panic: %v", r)
 		}
 	}
 	return nil
